@@ -15,13 +15,12 @@ THEOREMS = [
     'SF.C05.views_agree', 'SF.C05.containsPinned_overlong_counterexample', 'SF.C05.cache_coherent', 'SF.C05.ofLevel_coherent',
     'SF.C05.leaf_open_slice_bounded',
     'SF.C05.hloc_fuel', 'SF.C05.hloc_exact_partial', 'SF.C05.hloc_full_tuple',
+    'SF.C05.hloc_exact_slices', 'SF.C05.hloc_slices_answer', 'SF.C05.clean_of_no_endpoints',
 ]
-PARTIAL = ['SF.C05.hloc_exact_partial: proved for per-depth selectors label / all / list (any mix, any depth). Missing for label slices: '
-           '(1) a slice matches by POSITION in the label order of its node (not by the label value alone), so Sel.matches/matchFrom need the node as '
-           'context; (2) a slice whose endpoint is absent from some visited node raises LocInvalid from an inner node, so nodes emit too and the '
-           'layer lemma (emission at the leaf layer only) needs a "no visited node lacks an endpoint" predicate threaded through hloc_pass; the '
-           'repaired leaf bound itself is proved (leaf_open_slice_bounded). Slices and the innermost Boolean mask are covered by the '
-           'model-vs-code comparison and the list-of-tuples oracle']
+PARTIAL = ['SF.C05.hloc_exact_partial: label / all / list selectors (any mix, any depth); extended by SF.C05.hloc_exact_slices to label slices '
+           'with step None or 1 at any depth (a slice matches by POSITION in the label order of the node the tuple lives under; a visited node that '
+           'lacks an endpoint makes the whole selection an error, never data - predicate Level.clean). Still missing: slices with another step '
+           '(negative, > 1) and the innermost Boolean mask, which are covered by the model-vs-code comparison and the list-of-tuples oracle']
 CORR_ONLY = [
     'aliasing of tree nodes (IndexHierarchyGO.from_product builds ONE ArrayGO of targets shared by all sibling nodes of a depth; '
     'IndexHierarchy.__init__ un-shares it by copying the levels): the Lean Level is a value tree without object identity, so sharing is '
